@@ -24,7 +24,7 @@ def run(chk):
     chk.explanation = EXPLANATION
     chk.info.update(P.stats())
     chk.rule("C20.O1", "INI-level duplicates, including whitespace variants of the key, are configuration errors", 10)
-    chk.rule("C20.O1n", "the strict duplicate check sees normalised keys: optionxform == dictionary key transform", 5)
+    chk.rule("C20.O1n", "the strict duplicate check sees normalised keys: optionxform == dictionary key transform", 4)
     chk.rule("C20.O2", "a pair given in both species orders and table forms whose names differ only in blanks are rejected; distinct ones accepted", 6)
     chk.rule("C20.O3", "a form label that is already registered (table form vs formula vs built-in form, any role) is rejected", 6)
     chk.rule("C20.O4", "a repeated A->B density is rejected", 1)
@@ -44,7 +44,7 @@ def _dup(P, exc):
 
 
 def ini_duplicates(chk, P):
-    site = P.cls(CP, "ConfigParser").lookup("_init_config_parser").site()
+    site = P.cls(CP, "ConfigParser").site_of("_init_config_parser")
     cases = [
         ("same pair key twice", "[Pair]\nA-B : as.zero\nA-B : as.constant 1\n"),
         ("'A-B' and 'A -B'", "[Pair]\nA-B : as.zero\nA -B : as.constant 1\n"),
@@ -94,7 +94,7 @@ def constructor_checks(chk, P):
         out = parse(P, text)
         ok = (out[0] == "raise" and _dup(P, out[1])) if dup else out[0] == "ok"
         chk.ob("C20.O2", "%s is %s" % (what, "rejected as a duplicate" if dup else "accepted"), ok,
-               site=cls.lookup("_check_for_duplicates").site(), found=out[1] if out[0] == "raise" else "accepted",
+               site=cls.site_of("_check_for_duplicates"), found=out[1] if out[0] == "raise" else "accepted",
                expect="ConfigParserDuplicateEntryException" if dup else "accepted", key="C20.O2|%s" % what)
 
 
@@ -170,4 +170,4 @@ def fs_duplicates(chk, P):
         out = e.exc
     ok = isinstance(out, ExcV) and isinstance(out.cls, ClassV) and out.cls.ci.is_subclass_of(cfg)
     chk.ob("C20.O4", "a repeated Fe->Al density (after an Al->Fe one) is a configuration error", ok,
-           site=ci.lookup("_density_to_potential_form_dict").site(), found=out, expect="ConfigurationException", key="C20.O4|fs-repeat")
+           site=ci.site_of("_density_to_potential_form_dict"), found=out, expect="ConfigurationException", key="C20.O4|fs-repeat")
